@@ -313,7 +313,22 @@ def intrinsics():
     I[VEC + "pop"] = lambda ip, n, a: some(d(a[0]).items.pop()) if d(a[0]).items else none()
     I[VEC + "len"] = lambda ip, n, a: len(d(a[0]).items)
     I[VEC + "is_empty"] = lambda ip, n, a: len(d(a[0]).items) == 0
-    I[VEC + "extend"] = lambda ip, n, a: (d(a[0]).items.extend(list(to_iter(a[1]))), unit())[1]
+    def extend(ip, n, a):
+        c = d(a[0])
+        new = list(to_iter(a[1]))
+        if isinstance(c, A.VecV):
+            c.items.extend(new)
+        elif isinstance(c, MapV):
+            for t in new:
+                t = d(t)
+                c.insert(t.elems[0], t.elems[1])
+        elif isinstance(c, SetV):
+            for x in new:
+                c.d[sk(x)] = x
+        else:
+            raise A.Unsupported("extend of %r" % (c,))
+        return unit()
+    I[VEC + "extend"] = extend
     I["core::iter::traits::collect::Extend::extend"] = I[VEC + "extend"]
     I[VEC + "clear"] = lambda ip, n, a: (d(a[0]).items.clear(), unit())[1]
     I[VEC + "retain"] = lambda ip, n, a: (d(a[0]).items.__setitem__(slice(None), [x for x in d(a[0]).items if ip.truth(call_f(ip, a[1], [x]))]), unit())[1]
@@ -460,6 +475,15 @@ def intrinsics():
         r = d(o.fields[0])
         return ok(some(r.fields[0])) if r.variant == "Ok" else r
     I[OPT + "transpose"] = transpose
+    I["core::option::Option::<core::result::Result<T, E>>::transpose"] = transpose
+
+    def transpose_r(ip, n, a):
+        r = d(a[0])
+        if r.variant == "Err":
+            return some(r)
+        o = d(r.fields[0])
+        return some(ok(o.fields[0])) if o.variant == "Some" else none()
+    I["core::result::Result::<core::option::Option<T>, E>::transpose"] = transpose_r
     I[RES + "is_ok_and"] = lambda ip, n, a: d(a[0]).variant == "Ok" and ip.truth(call_f(ip, a[1], [d(a[0]).fields[0]]))
     I[RES + "is_err_and"] = lambda ip, n, a: d(a[0]).variant == "Err" and ip.truth(call_f(ip, a[1], [d(a[0]).fields[0]]))
     I[RES + "err"] = lambda ip, n, a: some(d(a[0]).fields[0]) if d(a[0]).variant == "Err" else none()
